@@ -21,7 +21,7 @@ PROP_OF = [  # (regex on commit subject, property)
     (r"CBO\.ask called again before any tell", "C08"),
     (r"results\.csv|earlier results|results written by another search|always starts its results file", "C15"),
     (r"Identity\(type_func\)|Real\.inverse_transform", "C09/C02"), (r"sample from their prior|keeps the weights", "C10"),
-    (r"non_dominated_set_ranked returns every point", "C11"), (r"hypervolume", "C12"), (r"MedianStopper", "C16"), (r"MES acquisition|sort the active hyperparameter names|NumPy integer seeds", "C07"),
+    (r"non_dominated_set_ranked returns every point", "C11"), (r"hypervolume", "C12"), (r"MedianStopper", "C16"), (r"MES acquisition|sort the active hyperparameter names|NumPy integer seeds|quantile objective scaler subsamples", "C07"),
     (r"random points completing a batch|qUCB/qUCBd batches|all told results are ignored failures|already sampled is replaced", "C08"),
     (r"topk and boltzmann|DUMMY estimator|GradientBoostingQuantileRegressor|deterministic acquisition functions|lbfgs optimisation of the MES|GBRT|"
      r"RegularizedEvolution draws another mutation|placeholder value of an inactive|boltzmann multi-point|choices have different types", "C02"),
